@@ -954,10 +954,9 @@ class BaseCfgLine(object):
                         #######################################################
                         # Insert a child... do the children have children?
                         #######################################################
-                        if len(self.children[-1].children) > 0:
-                            _idx = self.linenum + len(self.all_children) + 1
-                        else:
-                            _idx = self.linenum + len(self.children) + 1
+                        # Always insert after the last descendant so no
+                        # existing line is re-parented by the new line
+                        _idx = self.linenum + len(self.all_children) + 1
 
                     elif insertstr_family_indent < self.classify_family_indent(self.text):
                         # inserstr is indented less than this object
